@@ -92,6 +92,19 @@ def gen_case(r):
             while len(d) < target:
                 d += " " + r.choice(words)
             p["doc"] = d[:target].rstrip()
+    # string defaults that are SPELLED like a type word (the default is a value, not a type hint), under str / Literal types
+    for n, p in ir["params"].items():
+        if "default" in p and r.random() < 0.08:  # (only where there is a default already: defaults stay a suffix of the parameter list)
+            w = r.choice(["float", "list", "str", "int", "bool", "dict", "tuple"])
+            p["typ"], p["default"] = r.choice([("str", w), ("Literal['%s', 'other']" % w, w), ("Optional[str]", w)])
+    # identifiers need not be ASCII
+    if ir["params"] and r.random() < 0.05:
+        from collections import OrderedDict as _OD
+
+        old_name = r.choice(list(ir["params"]))
+        new_name = r.choice(["données", "größe_2", "α", "naïve_count", "名前"])
+        if new_name not in ir["params"]:
+            ir["params"] = _OD((new_name if k == old_name else k, v) for k, v in ir["params"].items())
     return ir
 
 
